@@ -21,10 +21,12 @@ CONSTANTS OptsSet,    \* set of option records
           Scopes,     \* scope records [id, name, version, url, attrs] with a non-default identity
           SpanFlags,  \* subset of BOOLEAN: Rec inside a sampled span (exemplar) or not
           Mark,       \* BOOLEAN: measurements carry the vinst marker
+          MaxPre,     \* scrapes allowed BEFORE the exporter is registered with a MeterProvider
+          AllowShut,  \* BOOLEAN: MeterProvider.Shutdown (and one scrape after it) is explored
           MaxInst, MaxRec, MaxScr
 
-VARIABLES o, started, created, recs, cache, nscr, out, hist, act
-vars == <<o, started, created, recs, cache, nscr, out, hist, act>>
+VARIABLES o, started, phase, npre, created, recs, cache, nscr, out, hist, act
+vars == <<o, started, phase, npre, created, recs, cache, nscr, out, hist, act>>
 
 NoOpts == [scheme |-> "none", noUnits |-> FALSE, noSuffix |-> FALSE, ns |-> <<>>, noTarget |-> FALSE,
            noScope |-> FALSE, resConst |-> FALSE, resKeys |-> <<>>]
@@ -60,43 +62,66 @@ Env == [o |-> o, res |-> Res, insts |-> created, ases |-> ASes, bounds |-> [k \i
         qbounds |-> [k \in 1..Len(Bounds) |-> 8 * Bounds[k]], scopes |-> Scopes, mark |-> Mark]
 
 (* ---- actions ---- *)
-Init == /\ o = NoOpts /\ started = FALSE /\ created = <<>> /\ recs = <<>> /\ cache = {} /\ nscr = 0
+(* phase: "unreg" exporter created (New), not yet handed to a MeterProvider; "reg" after Register (WithReader);  *)
+(* "down" after MeterProvider.Shutdown; "done" after the one scrape that follows it                            *)
+Init == /\ o = NoOpts /\ started = FALSE /\ phase = "none" /\ npre = 0 /\ created = <<>> /\ recs = <<>> /\ cache = {} /\ nscr = 0
         /\ out = NoOut /\ hist = <<>> /\ act = [op |-> "Init"]
 
 Log(a) == act' = a /\ hist' = Append(hist, a)
 
 New(op) == /\ ~started
-           /\ o' = op /\ started' = TRUE /\ out' = NoOut
+           /\ o' = op /\ started' = TRUE /\ phase' = "unreg" /\ out' = NoOut
            /\ Log([op |-> "New", opts |-> op])
-           /\ UNCHANGED <<created, recs, cache, nscr>>
+           /\ UNCHANGED <<npre, created, recs, cache, nscr>>
 
-Create(t) == /\ started /\ Len(created) < MaxInst /\ \A k \in 1..Len(created) : created[k].id # t.id
+(* a scrape before registration: nothing is exposed and -- the point -- nothing is remembered (cache, infos) *)
+PreScr == /\ phase = "unreg" /\ npre < MaxPre
+          /\ npre' = npre + 1 /\ out' = NoOut
+          /\ Log([op |-> "Scrape"])
+          /\ UNCHANGED <<o, started, phase, created, recs, cache, nscr>>
+
+Register == /\ phase = "unreg"
+            /\ phase' = "reg" /\ out' = NoOut
+            /\ Log([op |-> "Register"])
+            /\ UNCHANGED <<o, started, npre, created, recs, cache, nscr>>
+
+Shut == /\ AllowShut /\ phase = "reg" /\ nscr >= 1
+        /\ phase' = "down" /\ out' = NoOut
+        /\ Log([op |-> "Shutdown"])
+        /\ UNCHANGED <<o, started, npre, created, recs, cache, nscr>>
+
+PostScr == /\ phase = "down"
+           /\ phase' = "done" /\ out' = NoOut
+           /\ Log([op |-> "Scrape"])
+           /\ UNCHANGED <<o, started, npre, created, recs, cache, nscr>>
+
+Create(t) == /\ phase = "reg" /\ Len(created) < MaxInst /\ \A k \in 1..Len(created) : created[k].id # t.id
              /\ created' = Append(created, t) /\ out' = NoOut
              /\ Log([op |-> "Create", inst |-> t])
-             /\ UNCHANGED <<o, started, recs, cache, nscr>>
+             /\ UNCHANGED <<o, started, phase, npre, recs, cache, nscr>>
 
-Rec(k, a, v, sp) == /\ started /\ Len(recs) < MaxRec /\ k \in 1..Len(created)
+Rec(k, a, v, sp) == /\ phase = "reg" /\ Len(recs) < MaxRec /\ k \in 1..Len(created)
                 /\ (DataOf(created[k].kind) = "counter" => v >= 0)
                 /\ recs' = Append(recs, [i |-> created[k].id, as |-> a, v |-> v, sp |-> sp]) /\ out' = NoOut
                 /\ Log([op |-> "Rec", inst |-> created[k].id, as |-> a, v |-> v, sp |-> sp])
-                /\ UNCHANGED <<o, started, created, cache, nscr>>
+                /\ UNCHANGED <<o, started, phase, npre, created, cache, nscr>>
 
-Scr == /\ started /\ nscr < MaxScr /\ created # <<>>
+Scr == /\ phase = "reg" /\ nscr < MaxScr /\ created # <<>>
        /\ (recs # <<>> \/ (MaxScr > 1 /\ nscr = 0))   \* one scrape before any measurement, where another can follow
        /\ LET r == Scrape(Env, Streams, cache, NameMap(Env, Canon), {}) IN
           /\ cache' = r.cache
           /\ out' = [scr |-> TRUE, fams |-> r.fams]
        /\ nscr' = nscr + 1
        /\ Log([op |-> "Scrape"])
-       /\ UNCHANGED <<o, started, created, recs>>
+       /\ UNCHANGED <<o, started, phase, npre, created, recs>>
 
 Next == \/ \E op \in OptsSet : New(op)
         \/ \E t \in Templates : Create(t)
         \/ \E k \in 1..MaxInst, a \in RecAS, v \in Vals, sp \in SpanFlags : Rec(k, a, v, sp)
-        \/ Scr
+        \/ Scr \/ PreScr \/ Register \/ Shut \/ PostScr
 Spec == Init /\ [][Next]_vars
 
-View == <<o, started, created, recs, cache, nscr>>
+View == <<o, started, phase, npre, created, recs, cache, nscr>>
 EmitEdge == (act'.op # "Scrape") \/ PrintT("EDGE " \o ToJson([path |-> hist, act |-> act']))
 
 (* ---- the statement on the model ---- *)
